@@ -725,14 +725,22 @@ void cmb_process_stop(struct cmb_process *tgt, void *retval)
         return;
     }
 
-    /* Stop the underlying coroutine, set its exit value */
+    /* Stop the underlying coroutine, set its exit value. Stopping oneself
+     * does not return, so that has to wait until the cleanup is done. */
     struct cmi_coroutine *cp = (struct cmi_coroutine *)tgt;
-    cmi_coroutine_stop(cp, retval);
+    const bool is_self = (tgt == cmb_process_current());
+    if (!is_self) {
+        cmi_coroutine_stop(cp, retval);
+    }
 
     /* Clean up unfinished business */
     cmi_process_cancel_awaiteds(tgt);
     cmi_process_drop_resources(tgt);
     wake_process_waiters(&(tgt->waiters), CMB_PROCESS_STOPPED);
+
+    if (is_self) {
+        cmi_coroutine_stop(cp, retval);
+    }
 }
 
 /*
